@@ -346,7 +346,10 @@ class Evaluator(Folder):
                                 target = None
                     if isinstance(target, ClassInfo) or type(target).__name__ == "_TypeOf":
                         name = (target if isinstance(target, ClassInfo) else target.cls).name  # a class held in a variable
-                    if target is not None and not isinstance(target, ClassInfo) and type(target).__name__ not in ("External", "_TypeOf"):
+                    builtin_exc = isinstance(target, type) and issubclass(target, BaseException)
+                    if builtin_exc:
+                        name = target.__name__  # a builtin exception class held in a variable / handed in as an argument
+                    if target is not None and not builtin_exc and not isinstance(target, ClassInfo) and type(target).__name__ not in ("External", "_TypeOf"):
                         v = self.fold(st.exc)
                         if isinstance(v, AExc):
                             r0 = Raised(v.cls_name, st)
